@@ -543,7 +543,11 @@ def mhtml_bytes(html, cte):
             + b + b"--\r\n")
 
 
-def epub_bytes(chapter_xhtml):
+def epub_bytes(chapters):
+    """Minimal EPUB with one spine item per chapter document (a str is a one-chapter book)."""
+    if isinstance(chapters, str):
+        chapters = [chapters]
+    ids = [f"c{i + 1}" for i in range(len(chapters))]
     bio = io.BytesIO()
     with zipfile.ZipFile(bio, "w") as z:
         z.writestr(zipfile.ZipInfo("mimetype"), "application/epub+zip")
@@ -553,9 +557,11 @@ def epub_bytes(chapter_xhtml):
         z.writestr("OEBPS/content.opf",
                    '<?xml version="1.0"?><package xmlns="http://www.idpf.org/2007/opf" version="3.0" unique-identifier="id">'
                    '<metadata xmlns:dc="http://purl.org/dc/elements/1.1/"><dc:title>t</dc:title><dc:identifier id="id">x</dc:identifier>'
-                   '<dc:language>en</dc:language></metadata><manifest><item id="c1" href="c1.xhtml" media-type="application/xhtml+xml"/>'
-                   '</manifest><spine><itemref idref="c1"/></spine></package>')
-        z.writestr("OEBPS/c1.xhtml", chapter_xhtml)
+                   '<dc:language>en</dc:language></metadata><manifest>'
+                   + "".join(f'<item id="{i}" href="{i}.xhtml" media-type="application/xhtml+xml"/>' for i in ids)
+                   + '</manifest><spine>' + "".join(f'<itemref idref="{i}"/>' for i in ids) + '</spine></package>')
+        for i, c in zip(ids, chapters):
+            z.writestr(f"OEBPS/{i}.xhtml", c)
     return bio.getvalue()
 
 
@@ -704,6 +710,191 @@ def text_level(ctx, H, E):
                                                                          "visible": d.visible, "cells": d.cells, "hidden": d.hidden})
 
 
+# ----------------------------------------------------------------------------- chapters are independent
+HAZARDS = {
+    # how a chapter may END: (kind, markup appended to the body; the document is then truncated)
+    "unclosed-removable": ['<iframe src="about:blank">hid9z', "<noscript><p>hid9z", '<object data="m.swf"><param name="a" value="b">hid9z',
+                           "<applet code=x>hid9z", "<p>x<noscript>hid9z</p>"],
+    "truncated-script": ["<script>var a = 'hid9z';", "<style>p { color: hid9z }", "<script><!-- hid9z"],
+    "unclosed-block": ["<div><p>open <b>bold", "<ul><li>item", "<blockquote><h2>head"],
+    "open-table": ["<table><tr><td>cell", "<table><tr><td>a</td><td>b", "<table><tr><th>h</th></tr><tr>"],
+    "open-title": ["<title>dangling", "<p>x</p><title>"],
+    "unclosed-comment": ["<!-- hid9z", "<![CDATA[ hid9z", '<p class="x'],
+}
+
+
+def chapter_doc(body, k, tail=None):
+    head = ('<?xml version="1.0" encoding="utf-8"?>\n<html xmlns="http://www.w3.org/1999/xhtml" lang="en"><head>'
+            f'<meta charset="utf-8"/><title>ttl{k}z</title></head>\n<body>\n{body}\n')
+    return head + tail if tail is not None else head + "</body></html>\n"
+
+
+def start_recording(cls, obs, log):
+    """Subclass that records, at every feed() entry, the handler state (and the tokenizer's pending
+    input) BEFORE the chapter is parsed."""
+    class StartRec(cls):
+        def feed(self, data):
+            try:
+                o = obs(self)
+            except Exception as ex:  # noqa
+                o = ("unobservable", repr(ex))
+            log.append((o, getattr(self, "rawdata", None), getattr(self, "cdata_elem", None)))
+            return super().feed(data)
+    StartRec.__name__ = cls.__name__
+    return StartRec
+
+
+def chapter_view(ch):
+    return (ch.text, ch.title, tuple(tuple(tuple(r) for r in tb) for tb in ch.tables))
+
+
+def book_failures(E, chapters):
+    """Per-chapter independence on the implementation: chapter k of the book must equal the only
+    chapter of the one-chapter book made of the same document.  Returns [(k, field, in_book, alone)]."""
+    book = list(E.read_epub(io.BytesIO(epub_bytes(chapters))))[0].chapters
+    bad = []
+    if len(book) != len(chapters):
+        return [(-1, "chapter-count", len(book), len(chapters))]
+    for k, doc in enumerate(chapters):
+        alone = list(E.read_epub(io.BytesIO(epub_bytes(doc))))[0].chapters
+        if len(alone) != 1:
+            bad.append((k, "chapter-count", 1, len(alone)))
+            continue
+        a, b = chapter_view(book[k]), chapter_view(alone[0])
+        for name, x, y in zip(("text", "title", "tables"), a, b):
+            if x != y:
+                bad.append((k, name, x, y))
+    return bad
+
+
+def chapters_independent(ctx, H, E):
+    from unittest import mock
+    import importlib
+    from html.parser import HTMLParser
+    rng = ctx.rng
+    fails = ctx.extra.setdefault("oracle_failures", {})
+    M = importlib.import_module("sharepoint2text.parsing.extractors.mail.msg_email_extractor")
+
+    # ---- the model knows every attribute of the handler objects (fail closed on new state)
+    base = set(vars(HTMLParser()))
+    want_e = {"text_parts", "skip_depth", "_skip_tag", "in_block", "tables", "_current_table", "_current_row", "_current_cell",
+              "_in_table", "_in_cell", "_title", "_in_title"}
+    want_h = {"root", "stack", "skip_depth", "_skip_tag", "last_closed"}
+    got_e = set(vars(E._XhtmlTextExtractor())) - base
+    got_h = set(vars(H._HtmlTreeBuilder())) - base
+    ctx.obligation("model-covers-state:_XhtmlTextExtractor instance attributes == modelled fields", got_e == want_e,
+                   f"unmodelled: {sorted(got_e - want_e)} missing: {sorted(want_e - got_e)}")
+    ctx.obligation("model-covers-state:_HtmlTreeBuilder instance attributes == modelled fields", got_h == want_h,
+                   f"unmodelled: {sorted(got_h - want_h)} missing: {sorted(want_h - got_h)}")
+
+    # ---- generated books
+    books = []   # (chapters, hazard kinds per chapter, Doc per chapter)
+    fixed = [("unclosed-removable", '<iframe src="about:blank">hid9z'), ("unclosed-removable", "<noscript><p>hid9z"),
+             ("truncated-script", "<script>var a = 'hid9z';"), ("open-table", "<table><tr><td>cell"), ("open-title", "<title>dangling"),
+             ("unclosed-block", "<div><p>open <b>bold"), ("unclosed-comment", "<!-- hid9z")]
+    for kind, tail in fixed:
+        d1, d2 = Doc(rng), Doc(rng)
+        b1 = "<p>%s</p>" % d1.vis()
+        b2 = "<p>%s</p><table><tr><td>%s</td><td>%s</td></tr></table><p>%s</p>" % (d2.vis(), d2.vis(True), d2.vis(True), d2.vis())
+        books.append(([chapter_doc(b1, 1, tail), chapter_doc(b2, 2)], [kind, None], [d1, d2]))
+    for _ in range(ctx.n(150, 1500)):
+        n = rng.randint(2, 4)
+        chs, kinds, docs = [], [], []
+        for k in range(1, n + 1):
+            d = Doc(rng)
+            body = d.body(rng.randint(0, 3))
+            if k < n and rng.random() < 0.8:
+                kind = rng.choice(sorted(HAZARDS))
+                chs.append(chapter_doc(body, k, rng.choice(HAZARDS[kind])))
+            else:
+                kind = None
+                chs.append(chapter_doc(body, k))
+            kinds.append(kind)
+            docs.append(d)
+        books.append((chs, kinds, docs))
+
+    log = []
+    Rec = start_recording(E._XhtmlTextExtractor, epub_obs, log)
+    fed = 0
+    for chs, kinds, docs in books:
+        hazard = next((k for k in kinds if k), None)
+        ctx.case(("book", tuple(chs)), hazard is not None, kind=f"epub-book:{len(chs)}ch:{hazard or 'clean'}")
+        try:
+            with mock.patch.object(E, "_XhtmlTextExtractor", Rec):
+                res = list(E.read_epub(io.BytesIO(epub_bytes(chs))))[0]
+            fed += len(chs)
+            bad = book_failures(E, chs)
+        except Exception as ex:  # noqa
+            res, bad = None, [(-1, "exception", repr(ex), "")]
+        # absolute oracle for well-formed chapters that FOLLOW a hazard chapter
+        if res is not None and len(res.chapters) == len(chs):
+            for k in range(1, len(chs)):
+                if kinds[k] is None and any(kinds[:k]):
+                    ch, d = res.chapters[k], docs[k]
+                    why = check_tokens(ch.text, [], d.visible, d.cells, d.hidden, [c for tb in ch.tables for row in tb for c in row])
+                    if not why and ch.title != f"ttl{k + 1}z":
+                        why = f"title lost: {ch.title!r}"
+                    if why:
+                        bad.append((k, "tokens", why, ""))
+        if bad:
+            k, field, x, y = bad[0]
+            first = next((kk for kk in kinds[:max(k, 0)] if kk), None) or hazard or "clean"
+            # shrink to the two-chapter book (culprit j, victim k) that still fails
+            for j in range(max(k, 0)):
+                try:
+                    two = book_failures(E, [chs[j], chs[k]])
+                except Exception:  # noqa
+                    two = []
+                if any(b[0] == 1 for b in two):
+                    first = kinds[j] or "clean"
+                    b = next(b for b in two if b[0] == 1)
+                    chs, k, field, x, y = [chs[j], chs[k]], 1, b[1], b[2], b[3]
+                    break
+            fails["read_epub:book"] = fails.get("read_epub:book", 0) + 1
+            ctx.finding(f"epub:chapter-carryover:{first}",
+                        f"read_epub: chapter {k + 1} of a {len(chs)}-chapter book depends on the chapters before it ({field}: "
+                        f"{str(x)[:80]!r} in the book, {str(y)[:80]!r} alone); an earlier chapter ends with {first}",
+                        {"path": "read_epub:book", "chapters": chs, "chapter": k, "field": field, "in_book": x, "alone": y})
+
+    # ---- every chapter starts from the model's initial state (fresh handler or complete reset)
+    pre = "From S2T Require Import Lib.PyStr C17.Model C17.Corr Gen.C17Tables.\n"
+    distinct = []
+    for o, raw, cd in log:
+        if (o, raw, cd) not in distinct:
+            distinct.append((o, raw, cd))
+    tok_ok = all(raw == "" and cd is None for _, raw, cd in distinct)
+    observable = [o for o, _, _ in distinct if not (len(o) == 2 and o[0] == "unobservable")]
+    cases = [f"([], {epub_obs_coq(o)})" for o in observable]
+    ok, failing, lg = (coq_eval_shards(ctx, "epubstart", pre, "(epub_case epub_remove epub_void epub_block ws_table)", cases,
+                                        shard=500, ty="list event * epub_obs") if cases else (False, [], "no feed observed"))
+    ctx.traces += len(log)
+    ctx.obligation("correspondence:every EPUB chapter is parsed by a handler in the model's initial state (e_init), tokenizer input empty",
+                   ok and not failing and tok_ok and len(observable) == len(distinct) and len(log) == fed and fed > 0,
+                   (f"feeds observed {len(log)} of {fed} chapter documents; distinct start states {len(distinct)}; "
+                    f"non-initial: {[distinct[i] for i in failing][:1]!r}; pending tokenizer input: "
+                    f"{[(r, c) for _, r, c in distinct if r != '' or c is not None][:1]!r} " + lg)[:1500])
+
+    # same for the HTML builder behind read_html and the MSG body converter
+    hlog = []
+    HRec = start_recording(H._HtmlTreeBuilder, lambda p: html_obs(p)[0], hlog)
+    calls = 0
+    with mock.patch.object(H, "_HtmlTreeBuilder", HRec), mock.patch.object(M, "_HtmlTreeBuilder", HRec):
+        for doc in ("<p>a</p><noscript><p>open", "<p>b</p><script>var x;", "<p>c</p>"):
+            list(H.read_html(io.BytesIO(doc.encode())))
+            M._html_to_text(doc)
+            calls += 2
+    hd = []
+    for o, raw, cd in hlog:
+        if (o, raw, cd) not in hd:
+            hd.append((o, raw, cd))
+    cases = [f"([], {html_obs_coq(o)})" for o, _, _ in hd if not (len(o) == 2 and o[0] == "unobservable")]
+    ok, failing, lg = (coq_eval_shards(ctx, "htmlstart", pre, "(html_case html_remove html_void)", cases, shard=500,
+                                        ty="list event * html_obs") if cases else (False, [], "no feed observed"))
+    ctx.obligation("correspondence:every HTML document is parsed by a builder in the model's initial state (h_init)",
+                   ok and not failing and len(cases) == len(hd) and len(hlog) == calls and all(r == "" and c is None for _, r, c in hd),
+                   (f"feeds observed {len(hlog)} of {calls}; distinct start states {len(hd)} " + lg)[:800])
+
+
 # ----------------------------------------------------------------------------- feed-level correspondence
 def recording(cls):
     """Subclass that records the handler calls html.parser makes, then lets the real handler run."""
@@ -780,6 +971,12 @@ def replay(ctx, rp):
         ctx.case(("replay", a), True, kind="replay")
         if obs(drive(cls, a)) != obs(drive(cls, b)):
             ctx.finding(key, rp.get("what", "state differs"), {"machine": rp.get("machine"), "events": a, "without": b})
+    elif "chapters" in rp:
+        ctx.case(("replay", tuple(rp["chapters"])), True, kind="replay")
+        bad = book_failures(E, rp["chapters"])
+        if bad:
+            ctx.finding(key, rp.get("what", "chapter depends on earlier chapters"), {"path": "read_epub:book", "chapters": rp["chapters"],
+                                                                                    "failures": [list(map(str, b)) for b in bad[:3]]})
     elif "body_plain" in rp:
         M = importlib.import_module("sharepoint2text.parsing.extractors.mail.msg_email_extractor")
         got = msg_body_plain(M, rp["html_body"])
@@ -856,6 +1053,7 @@ def run(ctx):
     feed_correspondence(ctx, H, E)
     event_oracle(ctx, H, E)
     text_level(ctx, H, E)
+    chapters_independent(ctx, H, E)
 
 
 META = {
